@@ -58,6 +58,7 @@ func init() {
 		ruleMemberLoops(inWKB, 10, 0),
 		ruleWKBTables,
 		ruleScanCoercion,
+		ruleScannerState,
 		ruleNoGlobalResult("wkb encoders", marshalEntries("encoding/wkb.Marshal", "encoding/ewkb.Marshal", "encoding/internal/wkbcommon.Marshal"), 3),
 	)
 
@@ -95,7 +96,7 @@ func init() {
 			if c.Thorough() {
 				nb, ns, lim = 64, 32, Limits{MaxStates: 8000, MaxSteps: 40000, MaxVisits: 4, MaxDepth: 48}
 			}
-			ruleShapeFaults(shapeConfig{label: "hostile input", keep: func(string) bool { return false }, extra: hostileEntries, floor: 31,
+			ruleShapeFaults(shapeConfig{label: "hostile input", keep: func(string) bool { return false }, extra: hostileEntries, floor: 34,
 				override: hostileParams(nb, ns), hostile: true, lim: lim})(c)
 		},
 	)
@@ -412,6 +413,43 @@ func hostileParams(maxBytes, maxStr int) paramOverride {
 			return []argChoice{{par.Name() + "=stream", func(it *Interp, s *State) AV { it.inputLen = 0; return IfaceV{} }}}
 		}
 		if pt, ok := t.Underlying().(*types.Pointer); ok {
+			if nt, ok := pt.Elem().(*types.Named); ok && nt.Obj().Name() == "Message" && strings.HasSuffix(nt.Obj().Pkg().Path(), "protoscan") {
+				return []argChoice{{par.Name() + "=message", func(it *Interp, s *State) AV { it.inputLen = 0; return it.newScanObj(s, IntV{}) }}}
+			}
+			if nt, ok := pt.Elem().(*types.Named); ok && nt.Obj().Name() == "decoder" && strings.HasSuffix(nt.Obj().Pkg().Path(), "/mvt") {
+				// the tile decoder between features: 0..2 keys and values already collected, iterators from an earlier feature or none
+				st := nt.Underlying().(*types.Struct)
+				var out []argChoice
+				for nk := 0; nk <= 2; nk++ {
+					for nv := 0; nv <= 2; nv++ {
+						nk, nv := nk, nv
+						out = append(out, argChoice{fmt.Sprintf("decoder{keys:%d,values:%d}", nk, nv), func(it *Interp, s *State) AV {
+							it.inputLen = 0
+							sv := StructV{Fields: make([]AV, st.NumFields())}
+							for i := range sv.Fields {
+								f := st.Field(i)
+								switch f.Name() {
+								case "keys", "values":
+									n := nk
+									el := AV(StrV{})
+									if f.Name() == "values" {
+										n, el = nv, IfaceV{Top: true}
+									}
+									arr := ArrV{N: n, Elems: make([]AV, n), Def: el}
+									for j := range arr.Elems {
+										arr.Elems[j] = el
+									}
+									sv.Fields[i] = SliceV{Arr: it.newCell(s, arr), Hi: n, Cap: n}
+								default:
+									sv.Fields[i] = zeroOf(f.Type())
+								}
+							}
+							return PtrV{Cell: it.newCell(s, sv)}
+						}})
+					}
+				}
+				return out
+			}
 			if nt, ok := pt.Elem().(*types.Named); ok && nt.Obj().Name() == "Decoder" {
 				// a decoder over an arbitrary stream
 				return []argChoice{{par.Name() + "=decoder(stream)", func(it *Interp, s *State) AV {
@@ -455,7 +493,7 @@ var hostileEntries = []string{
 	"encoding/internal/wkbcommon.ScanMultiLineString", "encoding/internal/wkbcommon.ScanPolygon", "encoding/internal/wkbcommon.ScanMultiPolygon",
 	"encoding/internal/wkbcommon.ScanCollection",
 	"encoding/internal/wkbcommon.(*Decoder).Decode", "encoding/wkb.(*Decoder).Decode", "encoding/ewkb.(*Decoder).Decode",
-	"encoding/mvt.Unmarshal",
+	"encoding/mvt.Unmarshal", "encoding/mvt.(*decoder).Feature", "encoding/mvt.(*decoder).Layer", "encoding/mvt.decodeValueMsg",
 	// the per-kind stream readers, so that every one is explored whatever the search order of Decode
 	"encoding/internal/wkbcommon.readPoint", "encoding/internal/wkbcommon.readMultiPoint", "encoding/internal/wkbcommon.readLineString",
 	"encoding/internal/wkbcommon.readMultiLineString", "encoding/internal/wkbcommon.readPolygon", "encoding/internal/wkbcommon.readMultiPolygon",
